@@ -13,17 +13,21 @@ type CtxObj struct {
 type cancelState struct {
 	done     *ChanObj
 	canceled bool
+	cause    Value // error passed to a CancelCauseFunc (nil: context.Canceled)
 	children []*cancelState
 }
 
-func (e *Exec) cancelAll(cs *cancelState) {
+func (e *Exec) cancelAll(cs *cancelState) { e.cancelCause(cs, nil) }
+
+func (e *Exec) cancelCause(cs *cancelState, cause Value) {
 	if cs.canceled {
 		return
 	}
 	cs.canceled = true
+	cs.cause = cause
 	e.chanClose(cs.done)
 	for _, ch := range cs.children {
-		e.cancelAll(ch)
+		e.cancelCause(ch, cause)
 	}
 }
 
@@ -63,12 +67,23 @@ func (e *Exec) ctxIntrinsic(name string, args []Value) (Value, bool) {
 			panic(goPanic{Iface{T: types.Typ[types.String], V: StrV{C: "nil key"}}})
 		}
 		return mkCtx(&CtxObj{parent: p, key: args[1], val: args[2]}), true
-	case "context.WithCancel":
+	case "context.Cause":
+		c := ctxOf(args[0])
+		if cs := c.cancelOf(); cs != nil && cs.canceled {
+			if i, ok := cs.cause.(Iface); ok && i.T != nil {
+				return i, true
+			}
+			g := e.prog.ImportedPackage("context").Var("Canceled")
+			return e.load(e.global(g).(Ptr)), true
+		}
+		return Iface{}, true
+	case "context.WithCancel", "context.WithCancelCause":
 		p := ctxOf(args[0])
 		cs := &cancelState{done: e.newChan(types.NewStruct(nil, nil), 0)}
 		if pc := p.cancelOf(); pc != nil {
 			if pc.canceled {
 				cs.canceled = true
+				cs.cause = pc.cause
 				cs.done.closed = true
 			} else {
 				pc.children = append(pc.children, cs)
@@ -79,6 +94,16 @@ func (e *Exec) ctxIntrinsic(name string, args []Value) (Value, bool) {
 			e.cancelAll(cs)
 			return nil
 		}}
+		if name == "context.WithCancelCause" {
+			cancelFn = nativeFn{name: "context.CancelCauseFunc", f: func(e *Exec, a []Value) Value {
+				var cause Value
+				if len(a) > 0 {
+					cause = a[0]
+				}
+				e.cancelCause(cs, cause)
+				return nil
+			}}
+		}
 		return Tuple{mkCtx(child), cancelFn}, true
 	}
 	return nil, false
